@@ -70,6 +70,21 @@ def norm_axes(a):
     return list(a)
 
 
+ROUTE = {"domain": "RFromConstructs", "get_domain": "RFromConstructs", "fromconstructs": "RFromConstructs",
+         "fromconstructs-nocopy": "RFromConstructs", "source": "RSource"}
+
+
+def g_wop(op, done=()):
+    """An operation of the register language (Model.wop)."""
+    if op["op"] == "view":
+        return f"(TakeView {int(op['of'])} {ROUTE[op['route']]})"
+    if op["op"] == "sibling":
+        return "(OnSibling " + glist(list(done), lambda rn: f"({gkey(rn[0])}, {gkey(rn[1])})") + ")"
+    if op.get("reg"):
+        return f"(Through {int(op['reg'])} {g_op(dict(op, via='d'), done)})"
+    return f"(Plain {g_op(op, done)})"
+
+
 def g_op(op, done=()):
     k = op["op"]
     if k == "set":
@@ -123,13 +138,30 @@ def changed_keys(before, after):
     return sorted(k for k in a if k in b and (a[k] != b[k] or ax.get(k) != bx.get(k)))
 
 
+def cleaned_names(before, after):
+    """(reference key, name) pairs: names that a coordinate reference held
+    before and no longer holds after."""
+    if before is None or after is None:
+        return []
+    def names(st):
+        out = {}
+        for t, k, p in st["cons"]:
+            if t == "coordinate_reference":
+                out[k] = set(p["coords"]) | {v for _, v in p["ancs"] if v}
+        return out
+    b, a = names(before), names(after)
+    return sorted((rk, n) for rk in b if rk in a for n in b[rk] - a[rk])
+
+
 def g_step(s, before=None, after=None):
     e = "None" if s["out"] == "ok" else f"(Some {ERR[s['out']]})"
     ob = "Same" if s["state"] == "same" else f"(St {g_state(s['state'])})"
     done = ()
     if s["out"] != "ok" and s["op"]["op"] in ("transpose", "insert_dimension") and s["op"].get("constructs"):
         done = changed_keys(before, after)
-    return f"({g_op(s['op'], done)}, {e}, {ob})"
+    if s["op"]["op"] == "sibling":
+        done = cleaned_names(before, after)
+    return f"({g_wop(s['op'], done)}, {e}, {ob})"
 
 
 def g_case(steps):
@@ -259,6 +291,51 @@ CORPUS = [
                          {"op": "del_data_axes", "via": "f", "key": "dimensioncoordinate0"},
                          {"op": "convert", "key": "auxiliarycoordinate0", "full_domain": False},
                          {"op": "convert", "key": "auxiliarycoordinate0", "full_domain": True}]),
+    # views of views: an axis only the field's data span, deleted / resized through a nested domain
+    ("nested-view-axis", [_ax(5), {"op": "set_data", "shape": [5], "axes": ["domainaxis0"]},
+                          {"op": "view", "of": 0, "route": "source"},
+                          {"op": "insert_dimension", "axis": None, "position": 0, "constructs": False, "inplace": True},
+                          {"op": "view", "of": 0, "route": "domain"},
+                          {"op": "view", "of": 2, "route": "fromconstructs"},
+                          {"op": "view", "of": 1, "route": "source"},
+                          {"op": "view", "of": 4, "route": "fromconstructs"},
+                          {"op": "del", "via": "d", "reg": 3, "key": "domainaxis1"},
+                          {"op": "del", "via": "d", "reg": 4, "key": "domainaxis1"},
+                          {"op": "del", "via": "d", "reg": 5, "key": "domainaxis1"},
+                          {"op": "set", "via": "d", "reg": 3, "c": {"t": "domain_axis", "size": 3}, "key": "domainaxis1", "axes": None},
+                          {"op": "set", "via": "d", "reg": 5, "c": {"t": "domain_axis", "size": 2}, "key": "domainaxis0", "axes": None},
+                          _arr("field_ancillary", [1], ["domainaxis1"]),
+                          {"op": "del_data_axes", "via": "f", "key": None},
+                          {"op": "del", "via": "d", "reg": 5, "key": "domainaxis1"},
+                          {"op": "set", "via": "d", "reg": 4, "c": {"t": "domain_axis", "size": 2}, "key": "domainaxis1", "axes": None},
+                          dict(_arr("auxiliary_coordinate", [5], ["domainaxis0"], via="d"), reg=5),
+                          {"op": "del", "via": "d", "reg": 3, "key": "auxiliarycoordinate0"}]),
+    # g = Field(source=f, copy=False): what is done to g's collection must not reach f
+    ("sibling-field", [_ax(5), {"op": "set_data", "shape": [5], "axes": ["domainaxis0"]},
+                       {"op": "insert_dimension", "axis": None, "position": 0, "constructs": False, "inplace": True},
+                       _arr("auxiliary_coordinate", [5], ["domainaxis0"]),
+                       {"op": "sibling", "ops": [{"op": "del_data_axes", "key": None, "via": "f"},
+                                                 {"op": "del", "via": "f", "key": "domainaxis1"}]},
+                       {"op": "sibling", "ops": [{"op": "del_data_axes", "key": None, "via": "f"}]},
+                       {"op": "del", "via": "d", "key": "domainaxis1"},
+                       {"op": "sibling", "ops": [{"op": "del", "via": "f", "key": "auxiliarycoordinate0"},
+                                                 {"op": "del_data"},
+                                                 {"op": "del_data_axes", "key": None, "via": "f"},
+                                                 {"op": "set", "via": "d", "c": {"t": "domain_axis", "size": 7},
+                                                  "key": "domainaxis0", "axes": None},
+                                                 _arr("cell_measure", [7], ["domainaxis0"])]},
+                       {"op": "copy"}]),
+    # a scalar coordinate (axes=()) named by a coordinate reference: convert must carry it with the reference
+    ("convert-scalar-coordinate", [_ax(3), _ax(2), _arr("dimension_coordinate", [3], ["domainaxis0"]),
+                                   _arr("auxiliary_coordinate", [], []),
+                                   _arr("auxiliary_coordinate", [2], ["domainaxis1"]),
+                                   _arr("domain_ancillary", [], []),
+                                   {"op": "set", "via": "f", "c": {"t": "coordinate_reference",
+                                                                    "coords": ["auxiliarycoordinate0", "auxiliarycoordinate1",
+                                                                               "dimensioncoordinate0"],
+                                                                    "ancs": {"a": "domainancillary0"}},
+                                    "key": None, "axes": None},
+                                   {"op": "convert", "key": "dimensioncoordinate0", "full_domain": True}]),
     # two coordinate references naming the same domain ancillary, then convert(full_domain):
     # the ancillary is set twice under one key (a model slip found by the thorough tier)
     ("convert-shared-ancillary", [_ax(3), _ax(2), _arr("dimension_coordinate", [3], ["domainaxis0"]),
@@ -283,6 +360,8 @@ def signature(step, b):
     name = op["op"]
     if name in ("set", "del", "set_data_axes", "del_data_axes") and op.get("via") == "d":
         name += "-via-domain"
+        if any(t.startswith("through-view-depth-") and int(t.rsplit("-", 1)[1]) >= 2 for t in step.get("sit", ())):
+            name += "-nested"
     return f"{b[0]}:{name}:{'completed' if step['out'] == 'ok' else 'rejected'}"
 
 
@@ -368,7 +447,8 @@ def run(chk, model_ok):
                 tag = "constructs=True:" + ("completed" if s["out"] == "ok" else
                                             "rejected-state-changed" if s["state"] != "same" else "rejected")
                 situations[tag] = situations.get(tag, 0) + 1
-            key = s["op"]["op"] + ("/" + s["op"]["via"] if s["op"].get("via") in ("d", "core") else "")
+            key = s["op"]["op"] + ("/" + s["op"]["via"] if s["op"].get("via") in ("d", "core") else "") + \
+                ("/reg" if s["op"].get("reg") else "")
             opkinds[key] = opkinds.get(key, 0) + 1
             o = "ok" if s["out"] == "ok" else "rejected:" + s["out"]
             outcomes[o] = outcomes.get(o, 0) + 1
@@ -411,7 +491,7 @@ def run(chk, model_ok):
         sample = lits[len(CORPUS):len(CORPUS) + 150]
         cut = lib.coq_bad_indices(
             "C02", REQ,
-            "(fun l => Nat.eqb (in_model_steps init (map (fun x => fst (fst x)) l)) (length l))",
+            "(fun l => Nat.eqb (in_model_steps (map (fun x => fst (fst x)) l)) (length l))",
             sample, chunk=30)
         cut_sample = {"histories_in_sample": len(sample), "cut_by_out_of_model_step": len(cut)}
 
@@ -444,7 +524,8 @@ def run(chk, model_ok):
         "historical_refutations": "C02/Refuted.v: witnesses against the code as it stood at the pinned commit "
                                   "(F02a and its domain-view forms, F02b, replacement keeping axes, axis resize, "
                                   "axes for a non-array construct, field axes without data, insert_dimension(-1), "
-                                  "str/dump of a construct without axes)",
+                                  "str/dump of a construct without axes); seeded variants: _view_source = source (views of views), convert "
+                                  "dropping scalar coordinates, Field(source=f, copy=False) sharing the container",
     })
     chk.assumptions += [
         "the abstract state is what the public API shows: constructs per type, construct_types(), data_axes(), shapes, "
@@ -457,6 +538,13 @@ def run(chk, model_ok):
         "and is proved for every subset",
         "dictionaries and lists returned by construct_types(), data_axes(), todict(), get_data_axes() are overwritten "
         "after every read, so a returned alias of the container's state would corrupt the next observation",
+        "the history language has registers: the field, views of it taken by f.domain / get_domain() / "
+        "Domain.fromconstructs(x.constructs) / Domain(source=x, copy=False) from any register (depth up to 4), and "
+        "set/del construct and set/del data axes issued through any register; registers are dropped when the field "
+        "variable is rebound to a derived field",
+        "g = Field(source=f, copy=False) shares the construct and data OBJECTS with f by request: only container-level "
+        "calls are made on g (no in-place transposition / squeeze of shared data); what they may do to f is remove "
+        "names from shared coordinate reference objects (observed and handed to the model; proved harmless for any list)",
         "Constructs.replace() is documented as unchecked and is not an operation of the model; constructs fetched by "
         "reference and then mutated directly (f.domain_axis(k).set_size(9)) are outside the listed API",
         "index semantics of f[...] are taken from numpy (the size each index selects); property C03 covers them",
